@@ -43,6 +43,7 @@ pub trait MatFam: 'static {
     fn rm_to_cm(m: Self::RM) -> Self::CM;
     fn rm_lines(m: Self::RM) -> <Self::LK as Kind<Self::Line>>::V;
     fn rm_observe(m: &Self::RM, kind: u32);
+    fn rm_clone(m: &Self::RM) -> Self::RM;
     fn rm_map_lines<G: FnMut(Self::Line) -> Self::Line>(m: Self::RM, g: G) -> Self::RM;
     fn rm_map<G: FnMut(Tok) -> Tok>(m: Self::RM, g: G) -> Self::RM;
 
@@ -63,6 +64,7 @@ pub trait MatFam: 'static {
     fn cm_to_rm(m: Self::CM) -> Self::RM;
     fn cm_lines(m: Self::CM) -> <Self::LK as Kind<Self::Line>>::V;
     fn cm_observe(m: &Self::CM, kind: u32);
+    fn cm_clone(m: &Self::CM) -> Self::CM;
     fn cm_map_lines<G: FnMut(Self::Line) -> Self::Line>(m: Self::CM, g: G) -> Self::CM;
     fn cm_map<G: FnMut(Tok) -> Tok>(m: Self::CM, g: G) -> Self::CM;
 }
@@ -155,6 +157,7 @@ macro_rules! matfam {
             fn rm_to_cm(m: Self::RM) -> Self::CM { Self::CM::from(m) }
             fn rm_lines(m: Self::RM) -> <Self::LK as Kind<Self::Line>>::V { m.rows }
             fn rm_observe(m: &Self::RM, kind: u32) { observe_any(m, kind) }
+            fn rm_clone(m: &Self::RM) -> Self::RM { m.clone() }
             fn rm_map_lines<G: FnMut(Self::Line) -> Self::Line>(m: Self::RM, g: G) -> Self::RM { m.map_rows(g) }
             fn rm_map<G: FnMut(Tok) -> Tok>(m: Self::RM, g: G) -> Self::RM { m.map(g) }
 
@@ -189,6 +192,7 @@ macro_rules! matfam {
             fn cm_to_rm(m: Self::CM) -> Self::RM { Self::RM::from(m) }
             fn cm_lines(m: Self::CM) -> <Self::LK as Kind<Self::Line>>::V { m.cols }
             fn cm_observe(m: &Self::CM, kind: u32) { observe_any(m, kind) }
+            fn cm_clone(m: &Self::CM) -> Self::CM { m.clone() }
             fn cm_map_lines<G: FnMut(Self::Line) -> Self::Line>(m: Self::CM, g: G) -> Self::CM { m.map_cols(g) }
             fn cm_map<G: FnMut(Tok) -> Tok>(m: Self::CM, g: G) -> Self::CM { m.map(g) }
         }
@@ -775,6 +779,71 @@ impl<F: MatFam> MatExec<F> {
                 }
                 if !tok::has_violation() {
                     self.check("observe");
+                }
+                true
+            }
+            MClone => {
+                if !matches!(self.form, MForm::RM(_) | MForm::CM(_)) {
+                    return false;
+                }
+                st.probes[P_CONTAINER_CLONE] += 1;
+                if op.f > 0 {
+                    st.fault_cfg[F_OBSERVE_PANIC] += 1;
+                }
+                let form = &self.form;
+                let (r, fired) = guard(m(OWN_FRESH), m(OWN_MAIN), if op.f > 0 { Some((Cb::Observe, op.f)) } else { None }, || match form {
+                    MForm::RM(mm) => MForm::<F>::RM(F::rm_clone(mm)),
+                    MForm::CM(mm) => MForm::<F>::CM(F::cm_clone(mm)),
+                    _ => unreachable!(),
+                });
+                let fresh = tok::fresh_in_op();
+                match r {
+                    Ok(c) => {
+                        let mut ok = fresh.len() == n * n;
+                        for i in 0..n {
+                            for j in 0..n {
+                                let t = match &c {
+                                    MForm::RM(mm) => F::rm_field(mm, i, j),
+                                    MForm::CM(mm) => F::cm_field(mm, i, j),
+                                    _ => unreachable!(),
+                                };
+                                tok::check_read("read", t.id, t.val);
+                                if !fresh.contains(&t.id) || tok::origin_of(t.id) != Some(Origin::Clone) || tok::val_of(t.id) != tok::val_of(self.grid[i * n + j]) {
+                                    ok = false;
+                                }
+                            }
+                        }
+                        if !ok {
+                            tok::raise(V5_ORDER, format!("clone of a {0}x{0} matrix: the copy does not consist of one fresh clone per element, in place", n));
+                            std::mem::forget(c);
+                            return true;
+                        }
+                        for id in &fresh {
+                            tok::set_owner(*id, OWN_CLONE);
+                        }
+                        let _ = guard_nopanic("drop of the cloned matrix", m(OWN_CLONE), 0, move || drop(c));
+                        for id in &fresh {
+                            if tok::state_of(*id) != Some(St::Dropped) {
+                                tok::raise(V7_LEAK, format!("drop of a cloned matrix: id {} was not dropped", id));
+                                return true;
+                            }
+                        }
+                    }
+                    Err(Thrown::Injected) if fired => {
+                        st.fault_fired[F_OBSERVE_PANIC] += 1;
+                        st.probes[P_CLONE_PANIC_FIRED] += 1;
+                        for id in &fresh {
+                            if tok::state_of(*id) != Some(St::Dropped) {
+                                tok::raise(V7_LEAK, format!("clone of a matrix unwound: fresh element id {} leaked", id));
+                                return true;
+                            }
+                        }
+                    }
+                    Err(Thrown::Injected) => tok::raise(V10_UNEXPECTED_PANIC, "clone of a matrix: stray injected panic (harness)".into()),
+                    Err(Thrown::Genuine(msg)) => tok::raise(V10_UNEXPECTED_PANIC, format!("clone of a matrix panicked: {}", msg)),
+                }
+                if !tok::has_violation() {
+                    self.check("clone");
                 }
                 true
             }
